@@ -55,6 +55,8 @@ def explain(path):
                 out.append("%2d: pool[%d].interpolate(); .interpolate(d3_interpolate); .rangeRound([0, 1])" % (i, op[1]))
             elif k == "copy":
                 out.append("%2d: pool.append(pool[%d].copy())" % (i, op[1]))
+            elif k == "bystander":
+                out.append("%2d: keep = LinearScale(<end points of pool[%d]>, interpolate=<rounding>, clamp=<same>)   # not judged" % (i, op[1]))
             elif k == "deepcopy":
                 out.append("%2d: pool.append(copy.deepcopy(pool[%d]))" % (i, op[1]))
             elif k == "copy_chain":
@@ -92,6 +94,10 @@ def explain(path):
                 out.append("%2d: engine[%d].compute()   # FAULT: recursion limit = depth + %d" % (i, op[1], op[2]))
             elif k == "write_option":
                 out.append("%2d: engine[%d].options[%r] = %r   # written directly, no set_options()" % (i, op[1], op[2], op[3]))
+            elif k == "forget":
+                out.append("%2d: the caller drops its references to the labels of set %d" % (i, op[1]))
+            elif k == "drop_engine":
+                out.append("%2d: del engine[%d]   # the labels are kept" % (i, op[1]))
             elif k == "rewidth":
                 out.append("%2d: labels of set %d are re-measured: new widths on the existing objects" % (i, op[1]))
             elif k == "inspect":
